@@ -7,9 +7,14 @@ FRC = ["self._Pregex__pattern", "self._Pregex__type", "self._Pregex__repeatable"
 C = {}
 
 C[K + "__Class._to_char"] = dict(inline=True)
+# __Class.__init__: flag and verbose text as __process gives them (the maker used at call sites also records the ghost CLASSARG)
 C[K + "__Class.__init__"] = dict(
-    params={"self": "newobj", "pattern": "text", "is_negated": "bool", "simplify_word": "bool"}, raises={},
-    returns="class_init", assumed=True)
+    params={"self": "newobj", "pattern": "bracket", "is_negated": "bool", "simplify_word": "bool"}, raises={},
+    ensures="NEGATED(self) == is_negated and (SAME_TEXT(VERBOSE(self), '.') if pattern == '.' else VEQ(TV(VERBOSE(self)), TV(pattern)))",
+    returns="class_init", frame=FRC,
+    # shape of the text (all callers inside the library satisfy it: G9's CESC, the named classes' literals): a bracket text whose
+    # only escapes are \\ \^ \[ \] \- \/ - an item such as \n (backslash, letter) would be read as a run of two characters
+    requires_rt="CLASS_TEXT_WF(pattern)")
 
 CHARLIKE = ["str0", "str1", "str2", "Token", "Other", "Class", "Empty", "other", "none", "int"]
 
